@@ -172,6 +172,14 @@ KnownFinding(step, c) ==
     [] c = "C10_wf_json" -> KF_default(step)
     [] c = "C02_rt"     -> KF_rt(step)
     [] c = "C10_read_xml" -> IF ShadowExplains(step.src, SpecReadXML(step.ast)) THEN "KF-C03-shadow" ELSE ""
+    [] c = "C13_repeat" ->       \* the same export differs before / after a unifying exporter registered them
+         LET changed == {h \in DOMAIN step.pre.con : ~SameCon(step, h)}
+             items == step.res.items
+         IN IF /\ changed # {} /\ \A h \in changed : InheritedNsOnly(step, h) /\ UnifiesDup(step, h)
+               /\ \A i \in 1..Len(items) : items[i].prev = "diff" =>
+                     /\ items[i].ex \in {"provn", "getprovn", "json", "jsonsort", "xml", "xmlforce", "rdf"}
+                     /\ \E j \in 1..(i - 1) : items[j].ex \in Unifying
+            THEN "KF-unified-registers" ELSE ""
     [] c = "C13_pure" ->
          LET changed == {h \in DOMAIN step.pre.con : ~SameCon(step, h)} IN
          IF changed # {} /\ \A h \in changed : InheritedNsOnly(step, h) /\ UnifiesDup(step, h)
